@@ -24,6 +24,8 @@ from ..astutil import (text, access_path, func_params, stmts_of, calls_in, is_co
                        range_bounds, fold, is_method_call)
 from ..loader import where, AnalysisError
 from ..paths import Enumerator
+from ..terms import Terms, PathEnv
+from .. import poly
 
 
 # ------------------------------------------------------------------ R1
@@ -210,6 +212,56 @@ def tag_of(v, tags, size, problems):
 
 
 # ------------------------------------------------------------------ R3
+INF_TEXTS = ("math.inf", "np.inf", "float('inf')", "inf", "numpy.inf", "float('Inf')", "float('infinity')")
+
+
+def _subst_len(node, front, n_val):
+    """copy of node with len(<front>) replaced by the literal n_val"""
+    import copy
+
+    class L(ast.NodeTransformer):
+        def visit_Call(self, n):
+            if isinstance(n.func, ast.Name) and n.func.id == "len" and len(n.args) == 1 and access_path(n.args[0]) == front:
+                return ast.copy_location(ast.Constant(value=n_val), n)
+            return self.generic_visit(n)
+    return L().visit(copy.deepcopy(node))
+
+
+def _fold_bool(test, front, n_val):
+    """truth value of a guard under len(front) == n_val, or None"""
+    t = _subst_len(test, front, n_val)
+    if isinstance(t, ast.Compare) and len(t.ops) == 1:
+        try:
+            a, b = fold(t.left), fold(t.comparators[0])
+        except ValueError:
+            return None
+        op = t.ops[0]
+        return {ast.Eq: a == b, ast.NotEq: a != b, ast.Lt: a < b, ast.LtE: a <= b, ast.Gt: a > b, ast.GtE: a >= b}.get(type(op))
+    if isinstance(t, ast.UnaryOp) and isinstance(t.op, ast.Not):
+        r = _fold_bool(t.operand, front, n_val)
+        return None if r is None else not r
+    if isinstance(t, ast.BoolOp):
+        rs = [_fold_bool(v, front, n_val) for v in t.values]
+        if isinstance(t.op, ast.And):
+            return False if any(r is False for r in rs) else (True if all(r is True for r in rs) else None)
+        return True if any(r is True for r in rs) else (False if all(r is False for r in rs) else None)
+    if access_path(t) == front:
+        return n_val > 0
+    return None
+
+
+def _member_index(expr, front, n_val):
+    """position (0..n_val-1) of the member denoted by front[c] for a literal c, else None"""
+    if isinstance(expr, ast.Subscript) and access_path(expr.value) == front:
+        try:
+            c = fold(_subst_len(expr.slice, front, n_val))
+        except ValueError:
+            return None
+        if isinstance(c, int) and -n_val <= c < n_val:
+            return c % n_val
+    return None
+
+
 def r3_crowding(ctx, repo):
     mod = repo.module("operators")
     fn = mod.functions.get("crowding_distance")
@@ -217,73 +269,169 @@ def r3_crowding(ctx, repo):
         raise AnalysisError("crowding_distance not found")
     C = "operators.crowding_distance"
     front = func_params(fn)[0]
-    defs = single_defs(fn)
+    T = Terms(fn)
     FEAT = "features['crowding_distance']"
 
-    def ct(n):
-        return canon_text(n, defs)
+    def is_cd(target):
+        """member expression M for a store target M.features['crowding_distance'], else None"""
+        if isinstance(target, ast.Subscript) and isinstance(target.slice, ast.Constant) and target.slice.value == "crowding_distance" \
+                and isinstance(target.value, ast.Attribute) and target.value.attr == "features":
+            return target.value.value
+        return None
 
-    # (a) small fronts: paths with n == 1 / n == 2 decided true
-    small_ok = {1: False, 2: False}
-    for p in Enumerator(loop_counts=(0, 1)).function_paths(fn):
-        n_known = None
-        for e in p.events:
-            if e.kind == "guard" and e.val and isinstance(e.node, ast.Compare) and isinstance(e.node.ops[0], ast.Eq) \
-                    and ct(e.node.left) == "len(%s)" % front and is_const(e.node.comparators[0]):
-                n_known = const_value(e.node.comparators[0])
-        if n_known in (1, 2):
-            idx = set()
-            for e in p.events:
-                if e.kind == "stmt" and isinstance(e.node, ast.Assign) and text(e.node.value) in ("math.inf", "np.inf", "float('inf')", "inf"):
-                    t = text(e.node.targets[0])
-                    for i in range(n_known):
-                        if t == "%s[%d].%s" % (front, i, FEAT):
-                            idx.add(i)
-                    if n_known == 2 and t == "%s[-1].%s" % (front, FEAT):
-                        idx.add(1)
-            if idx == set(range(n_known)) and p.outcome == "return":
-                small_ok[n_known] = True
-    if all(small_ok.values()):
-        ctx.holds("R3", C, where(mod, fn), "fronts of one or two members get infinite distance for every member", key="small-fronts")
-    else:
-        # the generic code handles small fronts only if boundaries are assigned for n>=1; otherwise flag
-        ctx.violated("R3", C, where(mod, fn), "fronts of %s member(s) do not get infinite crowding distance for all members" % [k for k, v in small_ok.items() if not v], key="small-fronts")
-
-    # (b) loops
+    # ---------------------------------------------------------------- loops of the function, classified
     top_loops = [s for s in fn.body if isinstance(s, ast.For)]
     obj_loop = None
-    init_loop = None
     for lp in top_loops:
         if any(isinstance(s, ast.Expr) and is_method_call(s.value, "sort") for s in lp.body) or any(isinstance(s, ast.For) for s in lp.body):
             obj_loop = lp
-        else:
-            init_loop = lp
+
+    def over_members(lp):
+        """the loop visits every member once: for x in front / for i in range(len(front)) / enumerate(front)"""
+        info = T.loop_of(lp)
+        if info is None:
+            return False
+        if info.seqs and all(access_path(q) == front for q in info.seqs) and not isinstance(lp.iter, ast.Call):
+            return True
+        if isinstance(lp.iter, ast.Call) and access_path(lp.iter.func) == "enumerate" and access_path(lp.iter.args[0]) == front:
+            return True
+        rb = range_bounds(T.expand(lp.iter, at=lp))
+        return bool(rb and (rb[0] is None or text(rb[0]) == "0") and rb[2] is None and text(rb[1]) == "len(%s)" % front)
+
+    # ---------------------------------------------------------------- (a) small fronts
+    # every path that is consistent with len(front) == 1 (== 2) must leave every member with an infinite distance
+    small = {}
+    for n_val in (1, 2):
+        def counts(lp, n_val=n_val):
+            if isinstance(lp, ast.For):
+                if over_members(lp):
+                    return (n_val,)
+                if lp is obj_loop:
+                    return (1,)
+                info = T.loop_of(lp)
+                it = T.expand(lp.iter, at=lp)
+                rb = range_bounds(it)
+                if rb:
+                    try:
+                        a = fold(_subst_len(rb[0], front, n_val)) if rb[0] is not None else 0
+                        b = fold(_subst_len(rb[1], front, n_val))
+                        st_ = fold(_subst_len(rb[2], front, n_val)) if rb[2] is not None else 1
+                        return (len(range(a, b, st_)),)
+                    except (ValueError, TypeError):
+                        return (0, 1)
+                if info is not None and info.hi is not None and info.lo is None:
+                    try:
+                        return (max(0, fold(_subst_len(info.hi, front, n_val))),)
+                    except (ValueError, TypeError):
+                        return (0, 1)
+            return (0, 1)
+        try:
+            paths = Enumerator(loop_counts=counts, max_paths=4000).function_paths(fn)
+        except Exception as ex:  # TooManyPaths
+            small[n_val] = (None, "path enumeration failed: %s" % ex)
+            continue
+        verdict = True
+        why = ""
+        nok = 0
+        for p in paths:
+            pe = PathEnv(fn, p.events)
+            consistent = True
+            for k_, e in enumerate(p.events):
+                if e.kind == "guard":
+                    tv = _fold_bool(pe.expand_at(e.node, k_), front, n_val)
+                    if tv is not None and tv != bool(e.val):
+                        consistent = False
+                        break
+            if not consistent or p.outcome == "raise":
+                continue
+            nok += 1
+            state = {}
+            iters = {}
+            unknown_member = False
+            for k_, e in enumerate(p.events):
+                if e.kind == "iter" and isinstance(e.node, ast.For):
+                    iters[id(e.node)] = e.val
+                if e.kind != "stmt" or not isinstance(e.node, (ast.Assign, ast.AugAssign)):
+                    continue
+                st_ = e.node
+                tg = st_.targets[0] if isinstance(st_, ast.Assign) else st_.target
+                m = is_cd(tg)
+                if m is None:
+                    continue
+                mx = pe.expand_at(m, k_)
+                idx = _member_index(mx, front, n_val)
+                if idx is None and isinstance(mx, ast.Name):
+                    # loop variable of a members loop: position = iteration number
+                    for lp in [x for x in stmts_of(fn) if isinstance(x, ast.For) and over_members(x)]:
+                        info = T.loop_of(lp)
+                        if mx.id in getattr(info, "valid_elems", {}) and id(lp) in iters:
+                            idx = iters[id(lp)]
+                if idx is None and isinstance(mx, ast.Subscript) and access_path(mx.value) == front and isinstance(mx.slice, ast.Name):
+                    for lp in [x for x in stmts_of(fn) if isinstance(x, ast.For) and over_members(x)]:
+                        info = T.loop_of(lp)
+                        if info.index == mx.slice.id and id(lp) in iters:
+                            idx = iters[id(lp)]
+                if idx is None:
+                    unknown_member = True
+                    continue
+                vt = text(pe.expand_at(st_.value, k_))
+                if isinstance(st_, ast.Assign):
+                    state[idx] = "inf" if vt in INF_TEXTS else "fin"
+                elif state.get(idx) != "inf":
+                    state[idx] = "fin"
+            if unknown_member:
+                verdict = None if verdict is True else verdict
+                why = why or "a distance is stored for a member the analysis cannot place"
+                continue
+            if any(state.get(i) != "inf" for i in range(n_val)):
+                verdict = False
+                why = "member(s) %s of a front of %d end with %s on the path [%s]" % (
+                    [i for i in range(n_val) if state.get(i) != "inf"], n_val,
+                    {i: state.get(i, "no value") for i in range(n_val)}, p.describe(5))
+                break
+        if nok == 0:
+            verdict, why = None, "no path consistent with a front of %d member(s)" % n_val
+        small[n_val] = (verdict, why)
+    bad_small = [(k, w) for k, (v, w) in small.items() if v is False]
+    unk_small = [(k, w) for k, (v, w) in small.items() if v is None]
+    if bad_small:
+        ctx.violated("R3", C, where(mod, fn), "fronts of %s member(s) do not get infinite crowding distance for all members: %s" % ([k for k, _ in bad_small], bad_small[0][1]), key="small-fronts")
+    elif unk_small:
+        ctx.inconclusive("R3", C, where(mod, fn), "small fronts: %s" % unk_small[0][1], key="small-fronts")
+    else:
+        ctx.holds("R3", C, where(mod, fn), "fronts of one or two members get infinite distance for every member (all paths consistent with n = 1, 2)", key="small-fronts")
+
+    # ---------------------------------------------------------------- (b) general fronts
     if obj_loop is None:
         ctx.inconclusive("R3", C, where(mod, fn), "objective loop not found", key="objective-loop")
         return
-    # zero init outside objective loop, over all members
-    init_ok = False
-    if init_loop is not None and fn.body.index(init_loop) < fn.body.index(obj_loop) and isinstance(init_loop.target, ast.Name):
-        rb = range_bounds(init_loop.iter)
-        iv = init_loop.target.id
-        z = [s for s in init_loop.body if isinstance(s, ast.Assign) and text(s.targets[0]) == "%s[%s].%s" % (front, iv, FEAT) and is_const(s.value) and const_value(s.value) == 0]
-        if rb and (rb[0] is None or text(rb[0]) == "0") and ct(rb[1]) == "len(%s)" % front and z:
-            init_ok = True
-        if access_path(init_loop.iter) == front:
-            z = [s for s in init_loop.body if isinstance(s, ast.Assign) and text(s.targets[0]) == "%s.%s" % (iv, FEAT) and is_const(s.value) and const_value(s.value) == 0]
-            init_ok = bool(z)
-    zero_inside = [s for s in stmts_of(obj_loop) if isinstance(s, ast.Assign) and FEAT in text(s.targets[0]) and is_const(s.value) and const_value(s.value) == 0]
+    # zero init outside the objective loop, over all members
+    init_loop = None
+    for lp in top_loops:
+        if lp is obj_loop or fn.body.index(lp) > fn.body.index(obj_loop) or not over_members(lp):
+            continue
+        for s_ in lp.body:
+            if isinstance(s_, ast.Assign) and is_cd(s_.targets[0]) is not None and is_const(s_.value) and const_value(s_.value) == 0:
+                mx = T.expand(is_cd(s_.targets[0]), at=s_, elems=True)
+                info = T.loop_of(lp)
+                if isinstance(mx, ast.Subscript) and access_path(mx.value) == front and text(mx.slice) == info.index:
+                    init_loop = lp
+    zero_inside = [s_ for s_ in stmts_of(obj_loop) if isinstance(s_, ast.Assign) and is_cd(s_.targets[0]) is not None and is_const(s_.value) and const_value(s_.value) == 0]
     if zero_inside:
         ctx.violated("R3", C, where(mod, zero_inside[0]), "the distances are reset to zero inside the objective loop: only the last objective contributes", key="zero-init")
-    elif init_ok:
+    elif init_loop is not None:
         ctx.holds("R3", C, where(mod, init_loop), "all members start from 0.0 once, before the objective loop", key="zero-init")
     else:
-        ctx.violated("R3", C, where(mod, fn), "the crowding distance of every member is not reset to zero before the objective loop (stale values from earlier calls are accumulated)", key="zero-init")
+        zero_any = [s_ for s_ in stmts_of(fn) if isinstance(s_, ast.Assign) and is_cd(s_.targets[0]) is not None and is_const(s_.value) and const_value(s_.value) == 0]
+        # no reset at all is a recognised contradiction; a reset in a shape the rule cannot place is not
+        ctx.check3(None if zero_any else False, "R3", C, where(mod, fn), "",
+                   "the crowding distance of every member is not reset to zero before the objective loop (stale values from earlier calls are accumulated)",
+                   "a zero reset exists but is not recognised as covering every member before the objective loop", key="zero-init")
 
     # objective range excludes the marker
-    rb = range_bounds(obj_loop.iter)
+    rb = range_bounds(T.expand(obj_loop.iter, at=obj_loop))
     dim = obj_loop.target.id if isinstance(obj_loop.target, ast.Name) else None
-    stop = ct(rb[1]).replace(" ", "") if rb else ""
+    stop = text(rb[1]).replace(" ", "") if rb else ""
     good_stops = {"len(%s[0].costs_signed[:-1])" % front, "len(%s[0].costs_signed)-1" % front}
     if rb and (rb[0] is None or text(rb[0]) == "0") and stop in good_stops:
         ctx.holds("R3", C, where(mod, obj_loop), "objective loop runs over the objectives only (marker excluded)", key="objective-loop")
@@ -302,7 +450,6 @@ def r3_crowding(ctx, repo):
         if isinstance(st, ast.Return):
             early.append(st)
         if isinstance(st, ast.Break):
-            # a break belongs to the innermost enclosing loop
             owner = None
             for lp_ in [x for x in stmts_of(obj_loop) if isinstance(x, (ast.For, ast.While))]:
                 if st in stmts_of(lp_) and (owner is None or lp_ in stmts_of(owner)):
@@ -313,61 +460,80 @@ def r3_crowding(ctx, repo):
         ctx.violated("R3", C, where(mod, early[0]), "the objective loop is left early (%s): the remaining objectives contribute nothing and their extreme members do not get infinite distance" % type(early[0]).__name__.lower(), key="all-objectives")
     else:
         ctx.holds("R3", C, where(mod, obj_loop), "no break/return inside the objective loop: every objective is processed", key="all-objectives")
-    # a zero-range guard may only skip the division, not the boundary assignment
     # sort by that objective
-    sorts = [s for s in obj_loop.body if isinstance(s, ast.Expr) and is_method_call(s.value, "sort") and access_path(s.value.func.value) == front]
-    okk = False
+    sorts = [s_ for s_ in obj_loop.body if isinstance(s_, ast.Expr) and is_method_call(s_.value, "sort") and access_path(s_.value.func.value) == front]
+    okk = None
     if sorts:
         kw = {k.arg: k.value for k in sorts[0].value.keywords}
         k = kw.get("key")
-        if isinstance(k, ast.Lambda) and text(k.body) == "%s.costs_signed[%s]" % (k.args.args[0].arg, dim) and "reverse" not in kw:
-            okk = True
+        if isinstance(k, ast.Lambda) and len(k.args.args) == 1:
+            if text(k.body) == "%s.costs_signed[%s]" % (k.args.args[0].arg, dim) and "reverse" not in kw:
+                okk = True
+            else:
+                okk = False
+        elif k is None:
+            okk = False
     if okk:
         ctx.holds("R3", C, where(mod, sorts[0]), "front sorted ascending by the current objective", key="sort-by-objective")
-    else:
+    elif okk is False or not [c for c in calls_in(obj_loop) if (access_path(c.func) or "").split(".")[-1] in ("sort", "sorted")]:
         ctx.violated("R3", C, where(mod, (sorts or [obj_loop])[0]), "inside the objective loop the front is not sorted ascending by the current objective `%s`" % dim, key="sort-by-objective")
+    else:
+        ctx.inconclusive("R3", C, where(mod, obj_loop), "sorting step not recognised", key="sort-by-objective")
 
     # boundaries infinite
     inf_idx = set()
-    for s in obj_loop.body:
-        if isinstance(s, ast.Assign) and text(s.value) in ("math.inf", "np.inf", "float('inf')", "inf"):
-            for i in ("0", "-1"):
-                if text(s.targets[0]) == "%s[%s].%s" % (front, i, FEAT):
-                    inf_idx.add(i)
-    srt_i = obj_loop.body.index(sorts[0]) if sorts else -1
+    for s_ in obj_loop.body:
+        if isinstance(s_, ast.Assign) and text(T.expand(s_.value, at=s_)) in INF_TEXTS and is_cd(s_.targets[0]) is not None:
+            mx = T.expand(is_cd(s_.targets[0]), at=s_)
+            if isinstance(mx, ast.Subscript) and access_path(mx.value) == front:
+                t_ = text(mx.slice).replace(" ", "")
+                if t_ in ("0",):
+                    inf_idx.add("0")
+                if t_ in ("-1", "len(%s)-1" % front):
+                    inf_idx.add("-1")
     ctx.check(inf_idx == {"0", "-1"}, "R3", C, where(mod, obj_loop), "extreme members of each objective (positions 0 and -1 after sorting) get inf: found %s" % sorted(inf_idx), key="boundary-inf")
 
     # interior loop
-    inner = [s for s in obj_loop.body if isinstance(s, ast.For)]
-    if len(inner) != 1 or not isinstance(inner[0].target, ast.Name):
+    inner = [s_ for s_ in obj_loop.body if isinstance(s_, ast.For)]
+    if len(inner) != 1:
         ctx.inconclusive("R3", C, where(mod, obj_loop), "interior loop not found", key="interior")
         return
     il = inner[0]
-    i = il.target.id
-    rb = range_bounds(il.iter)
-    a = ct(rb[0]) if rb and rb[0] is not None else "0"
-    b = ct(rb[1]).replace(" ", "") if rb else ""
-    if a == "1" and b == "len(%s)-1" % front and rb[2] is None:
-        ctx.holds("R3", C, where(mod, il), "interior loop range(1, n-1): {0, n-1} + [1, n-1) = [0, n), neighbours i-1/i+1 in bounds", key="interior")
-    elif rb:
-        ctx.violated("R3", C, where(mod, il), "interior loop %s does not cover exactly the interior positions 1..n-2" % text(il.iter), key="interior")
-    else:
-        ctx.inconclusive("R3", C, where(mod, il), "interior range not recognised", key="interior")
-    # gap and accumulation
-    idefs = dict(defs)
-    idefs.update(single_defs(ast.FunctionDef(name="x", args=fn.args, body=il.body, decorator_list=[], returns=None, type_comment=None, lineno=0, col_offset=0)))
-    acc = [s for s in stmts_of(il) if isinstance(s, (ast.AugAssign, ast.Assign)) and FEAT in text(s.target if isinstance(s, ast.AugAssign) else s.targets[0])]
-    if len(acc) != 1:
-        ctx.inconclusive("R3", C, where(mod, il), "accumulation statement not found", key="gap")
+    info = T.loop_of(il)
+    acc = [s_ for s_ in stmts_of(il) if isinstance(s_, (ast.AugAssign, ast.Assign)) and is_cd(s_.target if isinstance(s_, ast.AugAssign) else s_.targets[0]) is not None]
+    if len(acc) != 1 or info is None or info.index is None:
+        ctx.inconclusive("R3", C, where(mod, il), "accumulation statement / loop index not found", key="gap")
         return
     st = acc[0]
-    tgt = text(st.target if isinstance(st, ast.AugAssign) else st.targets[0])
-    if tgt != "%s[%s].%s" % (front, i, FEAT):
-        ctx.violated("R3", C, where(mod, st), "the gap is credited to %s instead of member i" % tgt, key="gap")
+    tgt_node = st.target if isinstance(st, ast.AugAssign) else st.targets[0]
+    mx = T.expand(is_cd(tgt_node), at=st, elems=True)
+    if not (isinstance(mx, ast.Subscript) and access_path(mx.value) == front):
+        ctx.inconclusive("R3", C, where(mod, st), "credited member %s is not an element of the front" % text(mx), key="gap")
         return
+    J = mx.slice   # position of the credited member as an expression over the loop index
+    # positions covered: J(lo) .. J(hi) (J is index + constant)
+    k = info.index
+    lo = info.lo if info.lo is not None else ast.Constant(value=0)
+    hi = info.hi
+    n_expr = poly.parse("len(%s)" % front)
+    lo_x = T.expand(lo, at=il)
+    hi_x = T.expand(hi, at=il) if hi is not None else None
+    try:
+        jlo = poly.norm(J, {k: lo_x})
+        jhi = poly.norm(J, {k: hi_x}) if hi_x is not None else None
+        slope = poly.norm(J, {k: poly.parse("1")}) - poly.norm(J, {k: poly.parse("0")})
+    except poly.NotPolynomial:
+        jlo = jhi = slope = None
+    if jlo is None or jhi is None or not slope.is_const() or slope.const() != 1 or getattr(info, "step", None) is not None:
+        ctx.inconclusive("R3", C, where(mod, il), "interior positions %s over %s not normalisable" % (text(J), text(il.iter)), key="interior")
+    elif jlo == poly.norm(poly.parse("1")) and jhi == poly.norm(poly.parse("len(%s) - 1" % front)):
+        ctx.holds("R3", C, where(mod, il), "interior positions [1, n-1): {0, n-1} + [1, n-1) = [0, n), neighbours in bounds", key="interior")
+    else:
+        ctx.violated("R3", C, where(mod, il), "interior loop %s credits positions [%s, %s), not exactly the interior positions 1..n-2" % (text(il.iter), poly.key_of(jlo), poly.key_of(jhi)), key="interior")
+    # gap and accumulation
     if isinstance(st, ast.Assign):
         v = st.value
-        if not (isinstance(v, ast.BinOp) and isinstance(v.op, ast.Add) and text(v.left) == tgt):
+        if not (isinstance(v, ast.BinOp) and isinstance(v.op, ast.Add) and text(v.left) == text(tgt_node)):
             ctx.violated("R3", C, where(mod, st), "the normalised gap overwrites the distance instead of being added: only the last objective counts", key="gap")
             return
         term = v.right
@@ -376,19 +542,44 @@ def r3_crowding(ctx, repo):
             ctx.violated("R3", C, where(mod, st), "the normalised gap is not added", key="gap")
             return
         term = st.value
-    term = canon(term, idefs)
-    want_gap = {"%s[%s + 1].costs_signed[%s] - %s[%s - 1].costs_signed[%s]" % (front, i, dim, front, i, dim)}
-    want_rng = "%s[-1].costs_signed[%s] - %s[0].costs_signed[%s]" % (front, dim, front, dim)
-    if isinstance(term, ast.BinOp) and isinstance(term.op, ast.Div):
-        g, r = text(term.left), text(term.right)
-        if g.strip("()") not in want_gap:
-            ctx.violated("R3", C, where(mod, st), "the gap is %s, expected the difference of the two neighbours %s" % (g, sorted(want_gap)[0]), key="gap")
-        elif r.strip("()") != want_rng:
-            ctx.violated("R3", C, where(mod, st), "the gap is normalised by %s, expected the objective's range %s" % (r, want_rng), key="gap")
+    term = T.expand(term, at=st, elems=True)
+    if not (isinstance(term, ast.BinOp) and isinstance(term.op, ast.Div)):
+        ctx.check3(None, "R3", C, where(mod, st), unknown_detail="the added term %s is not recognised as gap / range" % text(term)[:120], key="gap")
+        return
+
+    def cost_of(e):
+        """(position expr, objective text) for front[P].costs_signed[d]"""
+        if isinstance(e, ast.Subscript) and isinstance(e.value, ast.Attribute) and e.value.attr == "costs_signed" \
+                and isinstance(e.value.value, ast.Subscript) and access_path(e.value.value.value) == front:
+            return e.value.value.slice, text(e.slice)
+        return None
+    g, r = term.left, term.right
+    parts = []
+    for side in (g, r):
+        if isinstance(side, ast.BinOp) and isinstance(side.op, ast.Sub) and cost_of(side.left) and cost_of(side.right):
+            parts.append((cost_of(side.left), cost_of(side.right)))
         else:
-            ctx.holds("R3", C, where(mod, st), "interior += (f[i+1]-f[i-1]) / (f[-1]-f[0]) for the current objective", key="gap")
+            parts.append(None)
+    if parts[0] is None or parts[1] is None:
+        ctx.check3(None, "R3", C, where(mod, st), unknown_detail="gap %s / range %s not recognised as differences of objective values" % (text(g)[:80], text(r)[:80]), key="gap")
+        return
+    (ga, gb), (ra, rb_) = parts
+    try:
+        up = poly.norm(ga[0]) - poly.norm(J)
+        dn = poly.norm(J) - poly.norm(gb[0])
+        one = poly.norm(poly.parse("1"))
+        gap_ok = up == one and dn == one and ga[1] == dim and gb[1] == dim
+    except poly.NotPolynomial:
+        gap_ok = None
+    rng_ok = text(ra[0]).replace(" ", "") in ("-1", "len(%s)-1" % front) and text(rb_[0]) == "0" and ra[1] == dim and rb_[1] == dim
+    if gap_ok is None:
+        ctx.inconclusive("R3", C, where(mod, st), "neighbour positions not normalisable", key="gap")
+    elif not gap_ok:
+        ctx.violated("R3", C, where(mod, st), "the gap is %s, expected the difference of the two neighbours f[j+1] - f[j-1] of the credited member j = %s in objective %s" % (text(g), text(J), dim), key="gap")
+    elif not rng_ok:
+        ctx.violated("R3", C, where(mod, st), "the gap is normalised by %s, expected the objective's range f[-1] - f[0]" % text(r), key="gap")
     else:
-        ctx.violated("R3", C, where(mod, st), "the added term %s is not the neighbour gap divided by the objective's range" % text(term), key="gap")
+        ctx.holds("R3", C, where(mod, st), "interior += (f[j+1]-f[j-1]) / (f[-1]-f[0]) for the current objective", key="gap")
 
 
 # ------------------------------------------------------------------ R4
@@ -400,14 +591,28 @@ class TourClient:
         self.orient = None
         self.sample_ok = None
 
-    def lookup(self, node, env, ev):
+    def cand_of(self, node, env, ev):
+        """'candidate0' / 'candidate1' when the expression denotes one of the two drawn candidates"""
         t = text(node)
         if self.cand:
-            for k, side in (("0", "p"), ("1", "q")):
-                if t == "%s[%s].features['front_number']" % (self.cand, k):
-                    return [sym("f", side)]
+            for k in ("0", "1"):
                 if t == "%s[%s]" % (self.cand, k):
-                    return [obj("candidate%s" % k)]
+                    return "candidate" + k
+        p = access_path(node)
+        if p is not None and p in env and env[p][0] == "obj" and str(env[p][1]).startswith("candidate"):
+            return env[p][1]
+        return None
+
+    def lookup(self, node, env, ev):
+        t = text(node)
+        if isinstance(node, ast.Subscript) and isinstance(node.slice, ast.Constant) and node.slice.value == "front_number" \
+                and isinstance(node.value, ast.Attribute) and node.value.attr == "features":
+            c = self.cand_of(node.value.value, env, ev)
+            if c is not None:
+                return [sym("f", "p" if c == "candidate0" else "q")]
+        c = self.cand_of(node, env, ev) if isinstance(node, ast.Subscript) else None
+        if c is not None:
+            return [obj(c)]
         if t == "%s[0]" % self.pop:
             return [obj("member")]
         return None
@@ -438,10 +643,12 @@ class TourClient:
             return [(dict(env), ref)]
         if nm.endswith(".compare") and len(stmt.value.args) == 2:
             self.flagvar = tgt
-            a0, a1 = text(stmt.value.args[0]), text(stmt.value.args[1])
-            if self.cand and a0.startswith(self.cand + "[0]") and a1.startswith(self.cand + "[1]"):
+            def owner(a):
+                return self.cand_of(a.value, env, None) if isinstance(a, ast.Attribute) and a.attr == "costs_signed" else None
+            o0, o1 = owner(stmt.value.args[0]), owner(stmt.value.args[1])
+            if (o0, o1) == ("candidate0", "candidate1"):
                 self.orient = 1
-            elif self.cand and a0.startswith(self.cand + "[1]") and a1.startswith(self.cand + "[0]"):
+            elif (o0, o1) == ("candidate1", "candidate0"):
                 self.orient = 2
             out = []
             for v in (0, 1, 2):
